@@ -12,6 +12,7 @@ Decided
       without memory mapping
   +   the probe list the Merger iterates is the caller's list in the caller's order (not sorted / de-duplicated / reversed / filtered)
   +   the mapping that collects the re-keyed metadata rows of one file is created empty inside the per-file loop
+  +   no metadata file is skipped on the state of a single probe (`self.subdirs[<constant>]`)
 Not decided: tie order beyond "stable + probe order of concatenation"; dtype promotion of the in-place additions.
 """
 import ast
@@ -460,6 +461,21 @@ def s1_offsets(ctx):
             else:
                 ctx.violated('C11.S1', f_home, inits[0], 'the mapping `%s` that collects the re-keyed rows is created once, outside the loop over the metadata files: rows of the previous file are '
                              'carried into the next one, so a cluster whose probe lacks that file gets another field\'s value' % acc)
+    # a metadata file present in SOME probes is merged from the probes that have it: no skip of the whole file conditioned on ONE probe (subdirs[<constant>])
+    if node is not None:
+        f_home2 = [f_ for f_ in g_all if any(n_ is node for n_ in ast.walk(f_.node))][0]
+        outer2 = [a_ for a_ in f_home2.ancestors(node) if isinstance(a_, (ast.For, ast.While))]
+        skips = []
+        for lp_ in outer2:
+            for i_ in [x for x in ast.walk(lp_) if isinstance(x, ast.If) and not q.contains(node, x)]:
+                jumps = any(isinstance(x, (ast.Continue, ast.Break, ast.Return)) for b_ in i_.body for x in ast.walk(b_))
+                one_probe = any(isinstance(n_, ast.Subscript) and isinstance(n_.value, ast.Attribute) and n_.value.attr == 'subdirs' and isinstance(const_value(n_.slice), int) for n_ in ast.walk(i_.test))
+                if jumps and one_probe:
+                    skips.append(i_)
+        if skips:
+            ctx.violated('C11.S1', f_home2, skips[0].test, 'a metadata file is skipped altogether when ONE probe (`%s`) lacks it: the probes that do have it lose their rows in the merged dataset' % unparse(skips[0].test)[:70])
+        elif outer2:
+            ctx.holds('C11.S1', f_home2, 'no metadata file is skipped on the state of a single probe (files present in some probes are merged from those probes)', outer2[0])
     # positional pairing: the offsets of ALL probes are zipped with ALL probes (a filtered / re-ordered list of directories shifts every later probe to a wrong offset)
     misaligned = None
     for lp2 in g.nodes(ast.For):
